@@ -45,11 +45,13 @@ def build_grid(g):
 @st.composite
 def specs(draw, tier):
     g = draw(grid_spec(tier))
-    kind = draw(st.sampled_from(["noise", "few", "few", "blobs", "blobs"] * 6 + ["bimodal", "bimodal", "long"]))
+    kind = draw(st.sampled_from(["noise", "few", "few", "blobs", "blobs"] * 6 + ["bimodal", "bimodal", "long", "long"]))
     if kind == "long":
         # a long 1-D image whose length sits at / next to powers of two and typical block sizes, with a tail that differs from
         # the rest (anything that processes the cells in blocks must still see all of them)
-        n = draw(st.sampled_from([4095, 4097, 65535, 65536, 65537, 98304, 131071, 131073, 160000, 200003]))
+        n = draw(st.sampled_from([4095, 4097, 65535, 65536, 65537, 98304, 131071, 131073, 160000, 200003, 262145, 300000, 524291] + ([1048579, 1300000] if tier != "quick" else [])))
+        if draw(st.booleans()):  # any length between the listed ones (a remainder block of any size)
+            n = draw(st.integers(66000, 600000 if tier == "quick" else 1400000))
         g = {"family": "cart", "origin": [0.0], "shape": [n], "spacing": [gen.r6(draw(st.floats(0.25, 2, **finite)))], "periodic": [draw(st.booleans())]}
     if kind == "bimodal":  # needs enough cells to populate all 256 histogram bins
         n = draw(st.integers(40, 64))
@@ -60,6 +62,8 @@ def specs(draw, tier):
         f["frac"] = draw(st.sampled_from([0.2, 0.35, 0.5]))
     if kind == "long":
         f["tail"] = draw(st.sampled_from([3, 1000, 20000, 40000]))
+        if n > 210000:
+            f["tail"] = draw(st.sampled_from([1000, 20000, 37000]))
     if kind == "noise":
         f["lo"], f["hi"] = sorted([draw(st.integers(-512, 512)), draw(st.integers(-512, 512))])
         if f["lo"] == f["hi"]:
@@ -191,6 +195,18 @@ class C18(Property):
             dk = np.flatnonzero(np.abs(dc - dg) <= 1e-12 * (dense.max() - dense.min()))
             ok_dense = dk.size >= 1 and int(dk[0]) < len(dfin) and dfin[int(dk[0])] >= dfin.max() * (1 - 1e-9)
             ctx.require(ok_dense, "otsu:dense-sample-not-maximal", f"threshold_otsu={dg} on a dense bimodal sample is not the bin centre maximising the between-class variance (best {dc[int(np.argmax(dfin))]})")
+            if spec["field"]["kind"] == "long":
+                # (2b) the same on a dense sample as long as the image whose last stretch comes from the brighter population only:
+                # every cell must enter the histogram, wherever it is stored
+                nbig = data.size
+                m = min(int(spec["field"]["tail"]), nbig // 2)
+                big = np.round(np.r_[rs.normal(0.0, 0.5, nbig - m), rs.normal(2.0, 0.5, m)] * 1024) / 1024
+                bc, bs = O.otsu_scores(big)
+                bg = threshold_otsu(big)
+                bfin = np.nan_to_num(bs, nan=-np.inf)
+                bk = np.flatnonzero(np.abs(bc - bg) <= 1e-12 * (big.max() - big.min()))
+                ok_big = bk.size >= 1 and int(bk[0]) < len(bfin) and bfin[int(bk[0])] >= bfin.max() * (1 - 1e-9)
+                ctx.require(ok_big, "otsu:long-dense-sample-not-maximal", f"threshold_otsu={bg} on {nbig} values (the last {m} from a brighter population) is not the bin centre maximising the between-class variance (best {bc[int(np.argmax(bfin))]})")
             centres, scores = O.otsu_scores(data)
             got = threshold_otsu(data)
             fin = np.nan_to_num(scores, nan=-np.inf)
